@@ -1369,7 +1369,13 @@ func getMemberExprIV(vm *r.VM, expr *syntax.MemberExpr) (*value.IV, error) {
 		if thisValue == nil {
 			return nil, zerr.ThisValueNotFound()
 		}
-		return value.NewMemberIV(thisValue, expr.MemberID.GetLiteral()), nil
+		// a property name is a name: something that starts like a number is rejected here as
+		// everywhere else
+		memberName, err := MatchIDName(expr.MemberID)
+		if err != nil {
+			return nil, err
+		}
+		return value.NewMemberIV(thisValue, memberName.GetLiteral()), nil
 	case syntax.RootTypeExpr: // A 之 B
 		valRoot, err := evalExpression(vm, expr.Root)
 		if err != nil {
@@ -1377,7 +1383,11 @@ func getMemberExprIV(vm *r.VM, expr *syntax.MemberExpr) (*value.IV, error) {
 		}
 		switch expr.MemberType {
 		case syntax.MemberID: // A 之 B
-			return value.NewMemberIV(valRoot, expr.MemberID.GetLiteral()), nil
+			memberName, err := MatchIDName(expr.MemberID)
+			if err != nil {
+				return nil, err
+			}
+			return value.NewMemberIV(valRoot, memberName.GetLiteral()), nil
 		case syntax.MemberIndex: // A # 0
 			idx, err := evalExpression(vm, expr.MemberIndex)
 			if err != nil {
